@@ -13,7 +13,7 @@ m = {
     "setup_cmd": "cd /verif/engine && GOFLAGS=-mod=mod GOPROXY=off GOSUMDB=off GOTOOLCHAIN=local go build -o /verif/bin/symx ./cmd/symx && GOFLAGS=-mod=mod GOPROXY=off GOSUMDB=off GOTOOLCHAIN=local go test -count=1 ./symx/",
     "hooks": {
         "guard": "verif",
-        "enable": "-tags verif (go/packages BuildFlags for the executor, `go test -c -tags verif -overlay ...` for native replay). The only hook is ledger.VerifPoint/VerifHook (crash-point callback before each durable write of a commit, used by C08); all harness code is injected as build overlays and never written into /repo",
+        "enable": "-tags verif (go/packages BuildFlags `-tags=verif,math_big_pure_go` for the executor - the second tag only selects the pure-Go bodies of math/big -, `go test -c -tags verif -overlay ...` for native replay). The only hook is ledger.VerifPoint/VerifHook (crash-point callback before each durable write of a commit, used by C08); all harness code is injected as build overlays and never written into /repo",
         "baseline_off_cmd": "cd /repo && GOFLAGS=-mod=mod GOPROXY=off go test -vet=off -count=1 ./cmd/... ./ctrlers/account/... ./ctrlers/stake/... ./ctrlers/types/... ./ctrlers/vm/... ./ledger/... ./libs/... ./node/... ./types/... ./sfeeder/common/...",
         "source_commits": ["e12d02b verif hook: ledger.VerifPoint before every durable write of a commit (no-op unless built with -tags verif)"],
         "add_only": True,
